@@ -362,7 +362,10 @@ def diff_fields(a, b):
 
 
 def run_sub(snippet, hashseed):
-    env = dict(os.environ, PYTHONHASHSEED=str(hashseed), PYTHONPATH=os.pathsep.join([HERE, "/repo", os.environ.get("PYTHONPATH", "")]))
+    import queasars
+
+    tree = os.path.dirname(os.path.dirname(os.path.abspath(queasars.__file__)))  # the tree this process imported the package from
+    env = dict(os.environ, PYTHONHASHSEED=str(hashseed), PYTHONPATH=os.pathsep.join([HERE, tree, os.environ.get("PYTHONPATH", "")]))
     p = subprocess.run([sys.executable, "-c", snippet], capture_output=True, text=True, env=env, timeout=600)
     for line in p.stdout.splitlines():
         if line.startswith("FP="):
